@@ -104,6 +104,8 @@ pub fn check(bytes: &[u8], _ctx: &Ctx) -> Verdict {
         Ok(x) => x,
         Err(v) => return v,
     };
+    crate::runner::note(|| format!("game {}", built.tree.brief()));
+    crate::runner::note(|| format!("profile ({}) as read through the named view with lengths checked: {:?}", source, named));
     let nops = s.below(6);
     for _ in 0..nops {
         match s.below(4) {
@@ -182,6 +184,7 @@ pub fn check(bytes: &[u8], _ctx: &Ctx) -> Verdict {
             }
             Err(v) => return v,
         }
+        crate::runner::note(|| format!("after {} -> {:?}", labels.last().copied().unwrap_or(""), named));
     }
     // final explicit round trip
     match game.from_named(cur.as_named()) {
@@ -219,9 +222,7 @@ pub fn check(bytes: &[u8], _ctx: &Ctx) -> Verdict {
 }
 
 pub fn describe(bytes: &[u8]) -> Value {
-    let (_, mut gs) = crate::stream::split(bytes, 128);
-    let built = gen_built(&mut gs, &GenCfg::small());
-    json!({"family": built.family, "game": built.tree.brief(), "note": "profile source and operation sequence follow in the stream"})
+    crate::runner::describe_by_running(check, bytes)
 }
 
 pub fn prop() -> Prop {
